@@ -77,9 +77,8 @@ func (mw *Window) Latest() (*api.Metric, error) {
 // they were Added. That is, result[0] will be the last added
 // metric.
 func (mw *Window) All() []*api.Metric {
-	values := make([]*api.Metric, 0, mw.window.Len())
-
 	mw.wMu.RLock()
+	values := make([]*api.Metric, 0, mw.window.Len())
 	mw.window.Do(func(v interface{}) {
 		i, ok := v.(*api.Metric)
 		if ok {
